@@ -30,6 +30,7 @@ struct Cfg {
   string ip;         // initial priority per slot: '0' defined without priority, '1'..'9', '-' not defined
   int dt = 1;        // seconds the clock advances before each getNextPoll
   int warm = 0;      // unperturbed selections before the explored history (drift of g_lastPollOrder)
+  bool samekey = false; // the messages of slots 0 and 1 have 6 byte IDs that fold to the SAME lookup key (keys are not unique)
   bool cond = false; // operation R<k> enabled: a condition referring to message k is defined and resolved (as after a later
                      // loaded definition file): the message gets the poll priority of condition messages and goes to the front
   int silent = -1;   // >= 0: every selected message gets an answer stored except the one in this slot (9 = all answer)
@@ -41,6 +42,7 @@ struct Cfg {
     if (chain >= 0) r += ";chain=" + std::to_string(chain);
     if (silent >= 0) r += ";silent=" + std::to_string(silent);
     if (cond) r += ";cond=1";
+    if (samekey) r += ";samekey=1";
     return r;
   }
 };
@@ -137,8 +139,13 @@ class World {
     delete m_otherMap;
   }
 
-  static string defLine(int k, int prio, bool chained = false) {
+  static string defLine(int k, int prio, bool chained = false, bool samekey = false) {
     char b[128];
+    if (samekey && k < 2) {
+      // B524 020003001600 and B524 060003001200: different IDs, identical XOR-folded key
+      snprintf(b, sizeof(b), "r%s,c,m%d,,,08,b524,%s,,,UCH\n", prio > 0 ? std::to_string(prio).c_str() : "", k, k == 0 ? "020003001600" : "060003001200");
+      return b;
+    }
     if (chained && prio > 0) { snprintf(b, sizeof(b), "r%d,c,m%d,,,08,b509,0d0%d00;0d0%d01;0d0%d02,,,HEX:3\n", prio, k, k, k, k); return b; }
     if (prio > 0) snprintf(b, sizeof(b), "r%d,c,m%d,,,08,b509,0d0%d00,,,UCH\n", prio, k, k);
     else snprintf(b, sizeof(b), "r,c,m%d,,,08,b509,0d0%d00,,,UCH\n", k, k);
@@ -163,7 +170,7 @@ class World {
       char c = m_cfg.ip[k];
       m_req[k] = -1;
       if (c == '-') continue;
-      body += defLine(k, c - '0', k == m_cfg.chain);
+      body += defLine(k, c - '0', k == m_cfg.chain, m_cfg.samekey);
       m_req[k] = c - '0';
     }
     bool ok = readCsv(body);
@@ -265,7 +272,7 @@ class World {
       if (log) { snprintf(b, sizeof(b), "%s  addPollMessage(true, m%d)\n", o.str().c_str(), o.slot); *log += b; }
       break;
     case 'A': {
-      bool ok = readCsv(defLine(o.slot, o.prio));
+      bool ok = readCsv(defLine(o.slot, o.prio, false, m_cfg.samekey));
       rebind();
       m_req[o.slot] = o.prio;
       m_cond[o.slot] = false;
@@ -330,7 +337,7 @@ class World {
       m_midProblem = queueProblem();
       if (m_midProblem == "queue-dangling") return true;  // nothing further is executed on this world
     }
-    bool ok = readCsv(defLine(slot, prio));
+    bool ok = readCsv(defLine(slot, prio, false, m_cfg.samekey));
     rebind();
     m_req[slot] = prio;
     m_cond[slot] = false;
